@@ -157,6 +157,7 @@ def _split_args(a):
     return out
 
 
+MANUAL_LOCKS = []
 PROTO = re.compile(r'lock|Lock|mutex|Mutex|process|postEvent|sendEvent|m_pendingCount|m_worker|invokeMethod')
 
 
@@ -198,6 +199,7 @@ class Walker:
             return [('Lock' if want else 'Unlock', lk[0])]
         m = re.match(r'^(mutex\(\)->|m_mutex\.|this->)?(lock|unlock)\(\)$', t)
         if m:
+            MANUAL_LOCKS.append('%s: %s' % (fn, t))      # not bound to a scope: not released when a handler throws
             mx = mutex_of('mutex()' if fn.startswith('Logger::') else '&m_mutex', fn)
             return [('Lock' if m.group(2) == 'lock' else 'Unlock', mx)]
         if re.match(r'^QTLOGGER_VERIF_POINT\(', t):
@@ -338,6 +340,7 @@ def coq_instr(x):
 
 
 def generate():
+    del MANUAL_LOCKS[:]
     lg = strip_comments(rd('logger.cpp'))
     oh = strip_comments(rd('ownthreadhandler.h'))
     lh = strip_comments(rd('logger.h'))
@@ -369,6 +372,9 @@ def generate():
     out += 'Definition src_logger_sk : list instr := inline src_process_message src_handler_sync.\n'
     out += 'Definition src_logger_fatal_sk : list instr := inline src_process_message_fatal src_handler_sync.\n'
     out += 'Definition src_handler_sk : list instr := src_handler_sync.\n'
+    out += '(* every lock operation of the two functions is bound to a scope (QMutexLocker: released on EVERY exit path, also when a\n'
+    out += '   user handler throws); manual lock()/unlock() calls found: %s *)\n' % (', '.join(sorted(set(MANUAL_LOCKS))) or 'none')
+    out += 'Definition src_locks_scope_bound : bool := %s.\n' % ('false' if MANUAL_LOCKS else 'true')
     out += '(* the entry points the threads of one run may use on an installed synchronous Logger: Qt macros, a direct call of\n'
     out += '   the public process(), Qt macros at fatal level *)\n'
     out += 'Definition src_entry_points : list (list instr) := [src_logger_sk; src_handler_sk; src_logger_fatal_sk].\n'
